@@ -372,9 +372,67 @@ func (res *CheckResult) checkExpression(lit parser.ValueExpr, requiredType strin
 	case *parser.StringLiteral:
 		res.assertHasType(lit, requiredType, TypeString)
 	case *parser.BinaryInfix:
-		res.checkExpression(lit.Left, TypeAny)
-		res.checkExpression(lit.Right, TypeAny)
+		// "+" and "-" take either two numbers or two monetaries, and evaluate to a value of that same type
+		operandsType := requiredType
+		if !isArithmeticType(operandsType) {
+			operandsType = res.inferArithmeticType(lit.Left)
+			if operandsType == TypeAny {
+				operandsType = res.inferArithmeticType(lit.Right)
+			}
+		}
+
+		if isArithmeticType(operandsType) {
+			res.checkExpression(lit.Left, operandsType)
+			res.checkExpression(lit.Right, operandsType)
+			res.assertHasType(lit, requiredType, operandsType)
+		} else {
+			// TypeAny (the type cannot be told statically) or the type of an operand that is not a number nor a monetary
+			if operandsType != TypeAny {
+				res.Diagnostics = append(res.Diagnostics, Diagnostic{
+					Range: lit.Left.GetRange(),
+					Kind: &TypeMismatch{
+						Expected: TypeMonetary + "|" + TypeNumber,
+						Got:      operandsType,
+					},
+				})
+			}
+			res.checkExpression(lit.Left, TypeAny)
+			res.checkExpression(lit.Right, TypeAny)
+		}
 	}
+}
+
+func isArithmeticType(typeName string) bool {
+	return typeName == TypeNumber || typeName == TypeMonetary
+}
+
+// The static type of an operand of "+" or "-", when it is known (otherwise TypeAny)
+func (res *CheckResult) inferArithmeticType(expr parser.ValueExpr) string {
+	switch expr := expr.(type) {
+	case *parser.NumberLiteral, *parser.BigNumberLiteral:
+		return TypeNumber
+	case *parser.MonetaryLiteral:
+		return TypeMonetary
+	case *parser.AccountLiteral:
+		return TypeAccount
+	case *parser.AssetLiteral:
+		return TypeAsset
+	case *parser.StringLiteral:
+		return TypeString
+	case *parser.RatioLiteral:
+		return TypePortion
+	case *parser.BinaryInfix:
+		leftType := res.inferArithmeticType(expr.Left)
+		if leftType == TypeAny {
+			return res.inferArithmeticType(expr.Right)
+		}
+		return leftType
+	case *parser.Variable:
+		if decl, ok := res.declaredVars[expr.Name]; ok && decl.Type != nil && isTypeAllowed(decl.Type.Name) {
+			return decl.Type.Name
+		}
+	}
+	return TypeAny
 }
 
 // Reports portion literals like "1/0" (returns whether the literal is a division by zero)
